@@ -111,6 +111,8 @@ def expected(cmd, a, cdb):
         else:
             unit = a.get("blocksize", 0)
         total = n * unit
+        if tlen == 3 and not a.get("extra_tl") and a.get("data") is not None:
+            total = len(a["data"])  # length known to the TPSIU only: the caller's buffer is the transfer
         if f["T_DIR"]:
             return ("eq", total), ("eq", 0)
         return ("eq", 0), ("eq", total)
